@@ -666,10 +666,15 @@ func engineFamily(ctx *core.Ctx, which string) error {
 			}
 		}
 	}
+	// 5. binding (B): behaviours enumerated / sampled by TLC are replayed on the real code
+	if err := replayFamily(ctx, cov, which); err != nil {
+		return err
+	}
 	cov.Set("runs", len(recs))
 	cov.Set("events", len(all))
 	rule := "one case = one real protocol run under one schedule (strategy, seed); distinct = distinct (scenario, executed schedule); non-trivial = not plain FIFO; " +
-		"every run is also validated line by line against Engine_Trace.tla (post-state of each call equals the spec's) and the design is model-checked by TLC (EngineMC.tla)"
+		"every run is also validated line by line against Engine_Trace.tla (post-state of each call equals the spec's), the design is model-checked by TLC (EngineMC.tla), " +
+		"and every behaviour TLC enumerates (small EdDSA configurations, exhaustively) or samples (-simulate) from EngineGen.tla is replayed on the real parties with the state compared after each step"
 	return ctx.WriteEvidence("model_checking", rule, cov, []string{
 		"the pump delivers sequentially: concurrency of Update calls is C09's subject",
 		"protocol tables in spec/Protocols.tla transcribe the message routing of the pinned tree",
